@@ -323,6 +323,12 @@ func (g *g2) schema(depth int) M {
 	case 3:
 		if len(g.defs) > 0 {
 			g.feats["allOf"] = true
+			if g.chance(3, "nullablewrapper") {
+				// the nullable-reference idiom: a wrapper with no type of its own
+				g.feats["x-nullable"] = true
+				g.feats["x-nullable-typeless"] = true
+				return M{"allOf": []any{M{"$ref": "#/definitions/" + rapid.SampledFrom(g.defs).Draw(g.t, "allofdef")}}, "x-nullable": true}
+			}
 			return M{"allOf": []any{M{"$ref": "#/definitions/" + rapid.SampledFrom(g.defs).Draw(g.t, "allofdef")}, g.object(depth - 1)}}
 		}
 		fallthrough
